@@ -36,7 +36,7 @@ func vhPatMatch(pat int, id string) bool {
 	return true // n*: everything but x1
 }
 
-//verif:cfg b_positions=4_positions,_every_sequence_of_2_consecutive_moves(one_move_longer_than_the_radius_and_shorter_than_twice_it) b_neighbours=4(one_inside_the_bounding_square_but_outside_the_circle,one_within_the_radius_of_two_positions)+1_not_matching_the_pattern b_pattern=*|exact|n[12]|n* b_nodwell=both ignorego=1
+//verif:cfg b_positions=4_positions,_every_sequence_of_2_consecutive_moves(one_move_longer_than_the_radius_and_shorter_than_twice_it) b_neighbours=4(one_inside_the_bounding_square_but_outside_the_circle,one_within_the_radius_of_two_positions)+1_not_matching_the_pattern+1_long_LineString_(an_end_near,_the_centre_far) b_pattern=*|exact|n[12]|n* b_nodwell=both ignorego=1
 func VH_C20_roam() {
 	s := vhServer()
 	pat := vchoose(4)
@@ -53,6 +53,9 @@ func VH_C20_roam() {
 		vhDo(s, "SET", "fleet", id, "POINT", vhRoamN[i][0], vhRoamN[i][1])
 	}
 	vhDo(s, "SET", "fleet", "x1", "POINT", "33.001", "-115.000")
+	// a neighbour that is not a point: a 9 km line whose southern end is 55 m from A while its centre is 4.6 km
+	// away - distance between objects is centre to centre, so it is never within 1000 m of any position
+	vhDo(s, "SET", "fleet", "nroad", "OBJECT", `{"type":"LineString","coordinates":[[-115.0,33.0005],[-115.0,33.084]]}`)
 	pos := vchoose(4)
 	vhDo(s, "SET", "fleet", "me", "POINT", vhRoamMe[pos][0], vhRoamMe[pos][1])
 	for move := 0; move < 2; move++ {
@@ -61,6 +64,7 @@ func VH_C20_roam() {
 			dOld[i] = vhDist(s, "me", id)
 		}
 		xOld := vhDist(s, "me", "x1")
+		roadOld := vhDist(s, "me", "nroad")
 		pos = vchoose(4)
 		_, d, _ := vhDo(s, "SET", "fleet", "me", "POINT", vhRoamMe[pos][0], vhRoamMe[pos][1])
 		msgs := FenceMatch(h.Name, h.ScanWriter, h.Fence, h.Metas, &d)
@@ -100,6 +104,22 @@ func VH_C20_roam() {
 				want = vhB2I(is && !(nodwell && was)) + vhB2I(was && !is)
 			}
 			vassert("C20.pattern_filters_neighbours", xSeen == want)
+		}
+		{
+			// the extended neighbour is reported by the same rule (distance between the objects against the radius)
+			dn := vhDist(s, "me", "nroad")
+			was, is := roadOld <= 1000, dn <= 1000
+			want := 0
+			if pat == 0 || pat == 3 {
+				want = vhB2I(is && !(nodwell && was)) + vhB2I(was && !is)
+			}
+			seen := 0
+			for _, m := range msgs {
+				if gjson.Get(m, "nearby.id").String() == "nroad" || gjson.Get(m, "faraway.id").String() == "nroad" {
+					seen++
+				}
+			}
+			vassert("C20.extended_neighbour_by_object_distance", seen == want)
 		}
 		vassert("C20.meters_true_distance", metersOK)
 		vobs("roam", move, pos, pat, nodwell, len(msgs))
